@@ -119,6 +119,13 @@ func genHeaders(rng *rand.Rand, marker string) [][2]string {
 	if rng.Intn(3) == 0 {
 		h = append(h, [2]string{randCase(rng, "Trailer"), "X-Sum-" + marker})
 	}
+	// headers the client's Connection header nominates as hop-by-hop (RFC 7230 6.1)
+	if rng.Intn(3) == 0 {
+		nom := "X-Hop-" + randToken(rng, 1+rng.Intn(8))
+		h = append(h, [2]string{randCase(rng, nom), "hopval-" + marker})
+		cv := []string{randCase(rng, nom), "keep-alive, " + nom, strings.ToLower(nom) + " , keep-alive", "Keep-Alive," + strings.ToUpper(nom)}[rng.Intn(4)]
+		h = append(h, [2]string{randCase(rng, "Connection"), cv})
+	}
 	// arbitrary token-named headers (kept), sometimes repeated / empty / differing only in case
 	n := rng.Intn(41)
 	for i := 0; i < n; i++ {
@@ -155,17 +162,61 @@ func genHeaders(rng *rand.Rand, marker string) [][2]string {
 	case 3:
 		h = append(h, [2]string{"X-Forwarded-For", "203.0.113.7, 198.51.100.9"})
 	}
+	// (one time in four of those: an empty first line followed by the real one)
 	if rng.Intn(4) == 0 {
+		if rng.Intn(4) == 0 {
+			h = append(h, [2]string{"X-Forwarded-Proto", ""})
+		}
 		h = append(h, [2]string{"X-Forwarded-Proto", "https"})
 	}
 	if rng.Intn(4) == 0 {
+		if rng.Intn(4) == 0 {
+			h = append(h, [2]string{"X-Forwarded-Host", ""})
+		}
 		h = append(h, [2]string{"X-Forwarded-Host", "public-" + marker + ".example"})
 	}
 	if rng.Intn(4) == 0 {
+		if rng.Intn(4) == 0 {
+			h = append(h, [2]string{"X-Real-IP", ""})
+		}
 		h = append(h, [2]string{"X-Real-IP", "203.0.113.99"})
 	}
 	rng.Shuffle(len(h), func(a, b int) { h[a], h[b] = h[b], h[a] })
+	// the empty line of a forwarding header goes before its real one
+	for _, fh := range []string{"X-Forwarded-Proto", "X-Forwarded-Host", "X-Real-IP"} {
+		first, empty := -1, -1
+		for i, kv := range h {
+			if kv[0] == fh {
+				if first < 0 {
+					first = i
+				}
+				if kv[1] == "" {
+					empty = i
+				}
+			}
+		}
+		if empty > first && first >= 0 {
+			h[first], h[empty] = h[empty], h[first]
+		}
+	}
 	return h
+}
+
+// nominated returns the header names the case's Connection header declares hop-by-hop.
+func nominated(hs [][2]string) map[string]bool {
+	out := map[string]bool{}
+	for _, kv := range hs {
+		if !strings.EqualFold(kv[0], "Connection") {
+			continue
+		}
+		for _, t := range strings.Split(kv[1], ",") {
+			t = strings.ToLower(strings.TrimSpace(t))
+			if t != "" && t != "keep-alive" && t != "close" {
+				out[t] = true
+			}
+		}
+	}
+	return out
 }
 
 func TestC15(t *testing.T) {
@@ -216,10 +267,29 @@ func headerMapPhase(run *rep.Run, rng *rand.Rand) {
 			orig.Header[k] = []string{randValue(rng)}
 			otherKeys = append(otherKeys, k)
 		}
+		nomKey := ""
+		if rng.Intn(4) == 0 {
+			nomName := "X-Nom-" + randToken(rng, 4)
+			nomKey = randCase(rng, nomName)
+			orig.Header[nomKey] = []string{"hopval"}
+			for k := range orig.Header {
+				if strings.EqualFold(k, "Connection") {
+					delete(orig.Header, k)
+				}
+			}
+			orig.Header[randCase(rng, "Connection")] = []string{[]string{nomName, "keep-alive, " + strings.ToLower(nomName)}[rng.Intn(2)]}
+		}
 		out, _ := http.NewRequest("POST", "http://backend.local/v1/chat/completions", nil)
 		out.Header = http.Header{}
 		core.CopyHeaders(out, orig)
 		run.Count("header_map_cases", 1)
+		if nomKey != "" {
+			for k, v := range out.Header {
+				if strings.EqualFold(k, nomKey) {
+					run.Violation("C15/header-map/forwarded/nominated-by-connection-header", fmt.Sprintf("CopyHeaders forwarded %q = %q although the incoming Connection header names it", k, v), map[string]any{"connection": orig.Header.Values("Connection"), "forwarded_key": k})
+				}
+			}
+		}
 		if i%64 == 0 {
 			run.Eval(fmt.Sprintf("map/%v", secretKeys))
 		} else {
@@ -389,8 +459,13 @@ func judge(run *rep.Run, c hcase, r *backend.Record) {
 		}
 	}
 	// (2) hop-by-hop
+	nom := nominated(c.Headers)
 	for _, g := range got {
 		ln := strings.ToLower(g.name)
+		if nom[ln] {
+			run.Violation("C15/hop-by-hop-forwarded/nominated-by-connection-header/"+where, fmt.Sprintf("the client's Connection header names %q as hop-by-hop, yet it reached the backend (value %q)", g.name, g.val), wit)
+			continue
+		}
 		switch ln {
 		case "keep-alive", "proxy-authenticate", "proxy-authorization", "te", "trailer", "upgrade":
 			run.Violation("C15/hop-by-hop-forwarded/"+ln+"/"+where, fmt.Sprintf("hop-by-hop header %q reached the backend (value %q)", g.name, g.val), wit)
@@ -420,7 +495,7 @@ func judge(run *rep.Run, c hcase, r *backend.Record) {
 				skip = true
 			}
 		}
-		if skip {
+		if skip || nom[ln] {
 			continue
 		}
 		if _, ok := wantOther[cn]; !ok {
@@ -514,7 +589,15 @@ func judge(run *rep.Run, c hcase, r *backend.Record) {
 				sent = append(sent, kv[1])
 			}
 		}
-		if len(sent) > 0 && strings.Join(sent, ", ") != strings.Join(gotBy[fh], ", ") {
+		nonEmpty := func(vs []string) (out []string) {
+			for _, v := range vs {
+				if v != "" {
+					out = append(out, v)
+				}
+			}
+			return
+		}
+		if ne := nonEmpty(sent); len(ne) > 0 && strings.Join(ne, ", ") != strings.Join(nonEmpty(gotBy[fh]), ", ") {
 			run.Violation("C15/forwarding-value-dropped/"+strings.ToLower(fh), fmt.Sprintf("client %s %q, backend received %q", fh, sent, gotBy[fh]), wit)
 		}
 	}
